@@ -61,6 +61,12 @@ CLAIMS = {
         'note': 'Only yr_arena_load_stream / yr_rules_load_stream / yr_rules_load / yr_rules_from_arena are analysed. A comparison counts as a bound check only if its other side is not itself file-derived.',
         'technique': 'static taint-to-sink path analysis (dominating bound comparisons) over clang CFG facts + ownership typestate',
     },
+    'C13': {
+        'text': 'Decides the scan funnel and the continuation bookkeeping: the block scanner and the rule evaluator are called only from yr_scanner_scan_mem_blocks, which every public scan entry point reaches through the resolved call graph; the wrappers pair scanner create/destroy, file map/unmap and process iterator open/close on every path; the fresh-scan initialisation sits in the last_error != ERROR_BLOCK_NOT_READY branch (first() there, next() in the continuation), the end-of-scan cleanup is conditional on result != ERROR_BLOCK_NOT_READY and nothing else clears matches; every function that walks the block iterator must read iterator->last_error (26 known findings: the evaluation-time walkers in exec.c and the modules do not; documented as the iterator\'s obligation in docs/capi.rst). Equality of results across entry points as values is not decided.',
+        'design_ref': 'DESIGN.md section 4, C13 (R13.1-R13.3)',
+        'note': 'Trusts the PAIRS and PUBLIC tables in yrsa/rules/C13.py and the pointer-resolved call graph.',
+        'technique': 'static who-may-call/reachability over the call graph + acquire/release pairing paths + structural continuation-guard checks (clang facts)',
+    },
     'C12': {
         'text': 'Decides, for every constant-folding grammar action, that the folder applies the same C operator and the same operand-value guards as the VM handler of the opcode the action emits; that no compiler-layer code reads a run-time object value; that externals are looked up in the scanner-owned table; and that shortcut flags are cleared on every path that uses a string otherwise. These are necessary structural clauses of C12, decided on all sites; verdict equality itself is not decided.',
         'design_ref': 'DESIGN.md section 4, C12 (R12.1-R12.6)',
